@@ -40,6 +40,9 @@ pub struct DCfg {
     pub chunk: usize,
     /// number of chunks hint
     pub chunks: usize,
+    /// offer the fault operations Block / Unblock
+    #[serde(default)]
+    pub faults: bool,
 }
 
 #[derive(Clone, Debug, Serialize, Deserialize, PartialEq, Eq)]
@@ -48,6 +51,11 @@ pub enum DOp {
     Dealloc(usize),
     /// grow the k-th live chunk to `size` bytes (content placed at the front)
     Grow { k: usize, size: usize },
+    /// fault: the name of the NEXT segment is occupied by a foreign shared memory, so that a
+    /// growth cannot create its segment (the request must fail, the memory must stay usable)
+    Block,
+    /// the foreign shared memory goes away again
+    Unblock,
 }
 
 struct Live {
@@ -61,23 +69,44 @@ trait Mem {
     unsafe fn grow(&self, p: ShmPointer, old: Layout, new: Layout) -> Result<ShmPointer, String>;
     unsafe fn deallocate(&self, p: ShmPointer, l: Layout);
     fn segments(&self) -> usize;
+    /// occupies the name of segment `id`; dropping the returned object frees it again
+    fn block(&self, id: u8) -> Result<Box<dyn std::any::Any>, String>;
 }
 
-impl<Shm: SharedMemory<PoolAllocator>> Mem for DynamicMemory<PoolAllocator, Shm>
+struct Dm<Shm: SharedMemory<PoolAllocator>>
+where
+    Shm::Builder: std::fmt::Debug,
+{
+    mem: DynamicMemory<PoolAllocator, Shm>,
+    name: FileName,
+}
+
+impl<Shm: SharedMemory<PoolAllocator> + 'static> Mem for Dm<Shm>
 where
     Shm::Builder: std::fmt::Debug,
 {
     fn allocate(&self, l: Layout) -> Result<ShmPointer, AllocationError> {
-        Allocate::allocate(self, l)
+        Allocate::allocate(&self.mem, l)
     }
     unsafe fn grow(&self, p: ShmPointer, old: Layout, new: Layout) -> Result<ShmPointer, String> {
-        Grow::grow(self, p, old, new, ContentPlacement::Front).map_err(|e| format!("{e:?}"))
+        Grow::grow(&self.mem, p, old, new, ContentPlacement::Front).map_err(|e| format!("{e:?}"))
     }
     unsafe fn deallocate(&self, p: ShmPointer, l: Layout) {
-        Deallocate::deallocate(self, p, l)
+        Deallocate::deallocate(&self.mem, p, l)
     }
     fn segments(&self) -> usize {
-        ResizableSharedMemory::number_of_active_segments(self)
+        ResizableSharedMemory::number_of_active_segments(&self.mem)
+    }
+    fn block(&self, id: u8) -> Result<Box<dyn std::any::Any>, String> {
+        use iceoryx2_cal::shared_memory::SharedMemoryBuilder;
+        let mut n = self.name;
+        n.push_bytes(format!("__{id}").as_bytes()).map_err(|e| format!("{e:?}"))?;
+        let b = <Shm as SharedMemory<PoolAllocator>>::Builder::new(&n)
+            .size(64)
+            .has_ownership(true)
+            .create(&iceoryx2_cal::shm_allocator::pool_allocator::Config { bucket_layout: Layout::new::<u64>() })
+            .map_err(|e| format!("{e:?}"))?;
+        Ok(Box::new(b))
     }
 }
 
@@ -86,6 +115,11 @@ pub struct DSys {
     mem: Box<dyn Mem>,
     live: Vec<Live>,
     next_pattern: u8,
+    /// id of the current segment (largest id seen in a returned pointer)
+    cur_id: u8,
+    blocker: Option<Box<dyn std::any::Any>>,
+    /// a request was refused while the next segment was blocked
+    refused_while_blocked: bool,
 }
 
 static COUNTER: AtomicU64 = AtomicU64::new(0);
@@ -111,7 +145,7 @@ where
         .max_number_of_chunks_hint(cfg.chunks)
         .create()
         .map_err(|e| Fail::new("setup", "DynamicMemory create", format!("{e:?}")))?;
-    Ok(Box::new(m))
+    Ok(Box::new(Dm::<Shm> { mem: m, name }))
 }
 
 pub fn new_sys(cfg: &DCfg) -> Result<DSys, Fail> {
@@ -120,7 +154,7 @@ pub fn new_sys(cfg: &DCfg) -> Result<DSys, Fail> {
         Backing::ProcessLocal => build::<iceoryx2_cal::shared_memory::process_local::Memory<PoolAllocator>>(cfg)?,
         Backing::Posix => build::<iceoryx2_cal::shared_memory::posix::Memory<PoolAllocator>>(cfg)?,
     };
-    Ok(DSys { cfg: cfg.clone(), mem, live: Vec::new(), next_pattern: 1 })
+    Ok(DSys { cfg: cfg.clone(), mem, live: Vec::new(), next_pattern: 1, cur_id: 0, blocker: None, refused_while_blocked: false })
 }
 
 pub fn sizes(cfg: &DCfg) -> Vec<usize> {
@@ -146,6 +180,9 @@ pub fn enabled(s: &DSys) -> Vec<DOp> {
         for t in targets.into_iter().take(2) {
             v.push(DOp::Grow { k, size: t });
         }
+    }
+    if s.cfg.faults && s.cfg.strategy != Strategy::Static {
+        v.push(if s.blocker.is_some() { DOp::Unblock } else { DOp::Block });
     }
     v
 }
@@ -188,12 +225,31 @@ fn verify(s: &DSys, site: &str) -> Result<(), Fail> {
 }
 
 pub fn apply(s: &mut DSys, op: &DOp) -> Result<(), Fail> {
+    // the repository's fatal_panic! dumps whole objects (names with the pid): keep a stable text
+    let what = match op {
+        DOp::Alloc(_) => "allocate",
+        DOp::Dealloc(_) => "deallocate",
+        DOp::Grow { .. } => "grow",
+        DOp::Block | DOp::Unblock => "fault",
+    };
+    match std::panic::catch_unwind(std::panic::AssertUnwindSafe(|| apply_inner(s, op))) {
+        Ok(r) => r,
+        Err(p) => Err(Fail::new("dyn-panic", format!("DynamicMemory {what}"), crate::port::stable_panic_message(p))),
+    }
+}
+
+fn apply_inner(s: &mut DSys, op: &DOp) -> Result<(), Fail> {
+    if matches!(op, DOp::Block | DOp::Unblock) {
+        return apply_fault(s, op);
+    }
     match op {
+        DOp::Block | DOp::Unblock => unreachable!(),
         DOp::Alloc(size) => {
             let site = "DynamicMemory allocate";
             match s.mem.allocate(lay(*size)) {
                 Ok(ptr) => {
                     ensure!(s.cfg.strategy != Strategy::Static || *size <= s.cfg.chunk, "dyn-static-grew", site, "Static strategy handed out {} bytes, chunk layout hint is {}", size, s.cfg.chunk);
+                    s.cur_id = s.cur_id.max(ptr.offset.segment_id().value());
                     let l = Live { ptr, size: *size, pattern: s.next_pattern };
                     s.next_pattern = s.next_pattern.wrapping_add(1).max(1);
                     fill(&l);
@@ -201,7 +257,10 @@ pub fn apply(s: &mut DSys, op: &DOp) -> Result<(), Fail> {
                 }
                 Err(e) => {
                     // Static: more chunks than the hint, or a larger chunk, are refused
-                    let legit = s.cfg.strategy == Strategy::Static && (*size > s.cfg.chunk || s.live.len() >= s.cfg.chunks);
+                    let legit = (s.cfg.strategy == Strategy::Static && (*size > s.cfg.chunk || s.live.len() >= s.cfg.chunks)) || s.blocker.is_some();
+                    if s.blocker.is_some() {
+                        s.refused_while_blocked = true;
+                    }
                     ensure!(legit, "dyn-alloc-failed", site, "allocate({}) failed with {:?}; {} live chunks, strategy {:?}", size, e, s.live.len(), s.cfg.strategy);
                 }
             }
@@ -219,6 +278,7 @@ pub fn apply(s: &mut DSys, op: &DOp) -> Result<(), Fail> {
             match unsafe { s.mem.grow(old_ptr, lay(old_size), lay(*size)) } {
                 Ok(ptr) => {
                     ensure!(s.cfg.strategy != Strategy::Static || *size <= s.cfg.chunk, "dyn-static-grew", site, "Static strategy grew a chunk to {} bytes, chunk layout hint is {}", size, s.cfg.chunk);
+                    s.cur_id = s.cur_id.max(ptr.offset.segment_id().value());
                     let kept = unsafe { std::slice::from_raw_parts(ptr.data_ptr, old_size) };
                     let intact = kept.iter().all(|x| *x == pattern);
                     s.live[*k] = Live { ptr, size: *size, pattern };
@@ -233,7 +293,10 @@ pub fn apply(s: &mut DSys, op: &DOp) -> Result<(), Fail> {
                     fill(&s.live[*k]);
                 }
                 Err(e) => {
-                    let legit = s.cfg.strategy == Strategy::Static;
+                    let legit = s.cfg.strategy == Strategy::Static || s.blocker.is_some();
+                    if s.blocker.is_some() {
+                        s.refused_while_blocked = true;
+                    }
                     ensure!(legit, "dyn-grow-failed", site, "grow from {} to {} bytes failed with {}; strategy {:?}", old_size, size, e, s.cfg.strategy);
                 }
             }
@@ -242,7 +305,36 @@ pub fn apply(s: &mut DSys, op: &DOp) -> Result<(), Fail> {
     }
 }
 
-pub fn finish(mut s: DSys) -> Result<(), Fail> {
+fn apply_fault(s: &mut DSys, op: &DOp) -> Result<(), Fail> {
+    match op {
+        DOp::Block => {
+            let id = s.cur_id.wrapping_add(1);
+            match s.mem.block(id) {
+                Ok(b) => s.blocker = Some(b),
+                Err(e) => return Err(Fail::new("setup", "blocker", e)),
+            }
+            verify(s, "next segment name occupied")
+        }
+        DOp::Unblock => {
+            s.blocker = None;
+            // whatever was refused meanwhile, the memory is still there: at least one segment, and
+            // (checked by the following operations) every request of a dynamic strategy succeeds again
+            ensure!(s.mem.segments() >= 1, "dyn-segment-lost", "after a growth that could not create its segment", "number_of_active_segments() is {}", s.mem.segments());
+            verify(s, "next segment name free again")
+        }
+        _ => unreachable!(),
+    }
+}
+
+pub fn finish(s: DSys) -> Result<(), Fail> {
+    match std::panic::catch_unwind(std::panic::AssertUnwindSafe(move || finish_inner(s))) {
+        Ok(r) => r,
+        Err(p) => Err(Fail::new("dyn-panic", "DynamicMemory release of everything / refill".to_string(), crate::port::stable_panic_message(p))),
+    }
+}
+
+fn finish_inner(mut s: DSys) -> Result<(), Fail> {
+    s.blocker = None;
     while let Some(l) = s.live.pop() {
         unsafe { s.mem.deallocate(l.ptr, lay(l.size)) };
         verify(&s, "DynamicMemory deallocate (finish)")?;
@@ -263,7 +355,7 @@ pub fn finish(mut s: DSys) -> Result<(), Fail> {
 
 pub fn model_key(s: &DSys) -> u64 {
     let v: Vec<(usize, u8)> = s.live.iter().map(|l| (l.size, l.ptr.offset.segment_id().value())).collect();
-    seqx::hash_of(&(v, s.mem.segments()))
+    seqx::hash_of(&(v, s.mem.segments(), s.blocker.is_some(), s.refused_while_blocked))
 }
 
 pub fn nontrivial(s: &DSys) -> bool {
@@ -276,11 +368,19 @@ pub fn configs(tier: Tier) -> Vec<(DCfg, Plan)> {
     for strategy in [Strategy::PowerOfTwo, Strategy::BestFit, Strategy::Static] {
         for (chunk, chunks) in [(8usize, 1usize), (8, 2), (16, 2)] {
             let depth = if q { 4 } else { 5 };
-            v.push((DCfg { backing: Backing::ProcessLocal, strategy, chunk, chunks }, Plan { tree_depth: depth, finish_prefixes: false, frontier: Some((if q { 150 } else { 600 }, if q { 6 } else { 8 })), split: if q { 1 } else { 4 } }));
+            v.push((DCfg { backing: Backing::ProcessLocal, strategy, chunk, chunks, faults: false }, Plan { tree_depth: depth, finish_prefixes: false, frontier: Some((if q { 150 } else { 600 }, if q { 6 } else { 8 })), split: if q { 1 } else { 4 } }));
         }
     }
+    // fault: the next segment cannot be created while `Block` is in effect
+    for (backing, strategy) in [(Backing::ProcessLocal, Strategy::BestFit), (Backing::Posix, Strategy::PowerOfTwo)] {
+        let posix = backing == Backing::Posix;
+        v.push((
+            DCfg { backing, strategy, chunk: 8, chunks: 1, faults: true },
+            Plan { tree_depth: if q { if posix { 4 } else { 5 } } else { 6 }, finish_prefixes: false, frontier: Some((if q { 150 } else { 500 }, if q { 7 } else { 9 })), split: if q { 3 } else { 6 } },
+        ));
+    }
     for strategy in [Strategy::PowerOfTwo, Strategy::BestFit] {
-        v.push((DCfg { backing: Backing::Posix, strategy, chunk: 8, chunks: 2 }, Plan { tree_depth: if q { 3 } else { 4 }, finish_prefixes: false, frontier: None, split: if q { 2 } else { 6 } }));
+        v.push((DCfg { backing: Backing::Posix, strategy, chunk: 8, chunks: 2, faults: false }, Plan { tree_depth: if q { 3 } else { 4 }, finish_prefixes: false, frontier: None, split: if q { 2 } else { 6 } }));
     }
     v
 }
